@@ -1,4 +1,4 @@
-from typing import Dict, Iterable, List, NamedTuple, Optional, Sequence
+from typing import Any, Dict, Iterable, List, NamedTuple, Optional, Sequence
 from conductor.utils.run_arguments import ArgumentValue
 from conductor.utils.run_options import OptionValue
 from conductor.errors import (
@@ -7,11 +7,37 @@ from conductor.errors import (
 )
 
 
-class ExperimentInstance(NamedTuple):
+class _ExperimentInstanceFields(NamedTuple):
     name: str
-    args: List[ArgumentValue] = []
-    options: Dict[str, OptionValue] = {}
-    parallelizable: bool = False
+    args: List[ArgumentValue]
+    options: Dict[str, OptionValue]
+    parallelizable: bool
+
+
+_NOT_GIVEN: Any = object()
+
+
+class ExperimentInstance(_ExperimentInstanceFields):
+    __slots__ = ()
+
+    def __new__(
+        cls,
+        name: str,
+        args: List[ArgumentValue] = _NOT_GIVEN,
+        options: Dict[str, OptionValue] = _NOT_GIVEN,
+        parallelizable: bool = False,
+    ):
+        # N.B. Every instance gets its own `args` list and `options`
+        # dictionary when they are not given. A default object shared by all
+        # instances could be modified through any one of them (e.g.,
+        # `instance.options["seed"] = 1`), which would change all the others.
+        return super().__new__(
+            cls,
+            name,
+            [] if args is _NOT_GIVEN else args,
+            {} if options is _NOT_GIVEN else options,
+            parallelizable,
+        )
 
 
 def run_experiment_group(
